@@ -149,7 +149,9 @@ def sim_flow(ctx: Ctx):
            f"_period passed to next_state is {show(pk)[:80] if pk else 'missing'} (required: the loop's period, per agent)",
            lhs=pk if pk is not None else "missing", rhs="repeat(period, n_agents)")
     # ---- state update: strip the prefix, nothing else
-    upd = nxt[st_name]
+    from lcmsa.rules_kernel import fuse_comps
+
+    upd = fuse_comps(nxt[st_name])  # a second comprehension over the items of the first is one comprehension
     ok_shape = (
         upd[0] == "comp" and upd[1] == "dict" and len(upd[3]) == 1
         and upd[3][0][1] == ("call", ("attr", ns, "items"), (), ()) and not upd[3][0][2]
@@ -661,6 +663,17 @@ def data_space_layout(ctx: Ctx):
         ctx.ob("LAY2:branch-flag", fflag in (parse("is_sparse & is_choice"), parse("is_choice & is_sparse")), prog.where(sp),
                "the product branch is taken exactly when restricted choices exist", lhs=show(sp[1]))
     # the mask: all filters, aggregated with logical_and, period fixed, vmapped over everything but _period
+    raw_mask = mask
+    while mask is not None and ((mask[0] == "op" and mask[1] in ("asarray", "array", "astype") and mask[2])
+                                or (callee_name(mask) in ("jax.numpy.asarray", "jax.numpy.array", "numpy.asarray") and mask[2])):
+        mask = mask[2][0][1] if mask[0] == "op" else mask[2][0]  # a plain conversion of the filter result
+    if mask is not None and mask[0] != "call":
+        inner = [x for x in walk(mask) if x[0] == "call" and calls_in(x[1], "lcm.dispatchers.vmap_1d")]
+        combined = bool(inner) and mask[0] in ("binop", "unop", "boolop", "op", "poly")
+        ctx.ob("LAY2:mask-is-the-filter-result", False if combined else None, prog.where(raw_mask),
+               "the result of the filters is combined with something else before rows are selected and segments are built "
+               f"({show(mask)[:80]}): the rows kept are no longer exactly the rows that pass the filters" if combined else
+               "the row mask is not recognised as the result of the row-wise filter call", lhs=show(mask)[:200])
     if mask is not None and mask[0] == "call":
         filt = mask[1]
         v1 = calls_in(filt, "lcm.dispatchers.vmap_1d")
